@@ -1,19 +1,22 @@
-(* Proofs about the MPSC queue model (coq/Mpsc.v): an inductive invariant over
+(* Proofs about the SPSC queue model (coq/Spsc.v): an inductive invariant over
    every reachable state of the machine instrumented with ghost history, for
-   any number of producers, any programs obeying the usage discipline [wf]
-   (single consumer = thread 0; every node is pushed by at most one OPush and
-   is not the stub), any schedule. *)
+   any number of threads, any programs obeying the usage discipline [wf pt]
+   (single consumer = thread 0, single producer = thread pt, possibly the same
+   thread; every node is pushed by at most one OPush and is not the stub),
+   any schedule.  Same structure as MpscProofs.v; the tail exchange is split
+   into an acquire load and a release store, which is where the
+   single-producer discipline is needed. *)
 From Coq Require Import List ZArith Lia Bool Arith.
-From LF Require Import Conc Mpsc.
+From LF Require Import Conc Spsc.
 Import ListNotations.
 
 (* ------------------------------------------------------------------ *)
 (* Instrumented machine.  Ghosts: the queue history as an indexed sequence:
    nodeat 0 is the initial stub, nodeat i (i >= 1) the node installed by the
-   i-th tail exchange and valat i the data value that push was asked to push;
-   hi = number of exchanges so far, lo = number of head advances so far (so
+   i-th store to tail and valat i the data value that push was asked to push;
+   hi = number of tail stores so far, lo = number of head advances so far (so
    nodeat lo is the current stub), nret = number of pops that have returned;
-   plog = (pushing thread, pushed value) in exchange order, qlog = values the consumer read
+   plog = (pushing thread, pushed value) in tail-store order, qlog = values the consumer read
    from the nodes returned by trypop, in return order. *)
 Record ist := { base : st; nodeat : nat -> nat; valat : nat -> nat;
                 hi : nat; lo : nat; nret : nat;
@@ -24,7 +27,7 @@ Definition lstep (x : ist) (t : nat) : ist :=
   let T := thr s t in
   let s' := fst (step s t) in
   match pc T with
-  | PXchg => {| base := s'; nodeat := upd (nodeat x) (S (hi x)) (node T);
+  | PStoreTail => {| base := s'; nodeat := upd (nodeat x) (S (hi x)) (node T);
                 valat := upd (valat x) (S (hi x)) (arg T);
                 hi := S (hi x); lo := lo x; nret := nret x;
                 plog := plog x ++ [(t, arg T)]; qlog := qlog x |}
@@ -81,24 +84,37 @@ Fixpoint pushonly (p : list op) : Prop :=
   | _ => False
   end.
 
-Record wf (progs : list (list op)) : Prop := {
+Fixpoint poponly (p : list op) : Prop :=
+  match p with
+  | [] => True
+  | OPop :: r => poponly r
+  | _ => False
+  end.
+
+(* pt = the producer thread *)
+Record wf (pt : nat) (progs : list (list op)) : Prop := {
   wf_cons : forall t, t <> 0 -> pushonly (nth t progs []);       (* only thread 0 pops *)
+  wf_prod : forall t, t <> pt -> poponly (nth t progs []);       (* only thread pt pushes *)
   wf_nodup : forall t, NoDup (pushed (nth t progs []));          (* a node is pushed once *)
-  wf_disj : forall t u n, In n (pushed (nth t progs [])) -> In n (pushed (nth u progs [])) -> t = u;
   wf_node : forall t n, In n (pushed (nth t progs [])) -> n <> 0 /\ n <> 1   (* not NULL, not the stub *)
 }.
 
+Lemma poponly_pushed p : poponly p -> pushed p = [].
+Proof. induction p as [|[n v|] r IH]; cbn; auto; contradiction. Qed.
+
 (* ------------------------------------------------------------------ *)
 (* node ownership: the nodes a thread may touch privately *)
-Definition pushing (p : pcT) : bool := match p with PData | PNull | PXchg => true | _ => false end.
+Definition pushing (p : pcT) : bool :=
+  match p with PData | PNull | PLoadTail | PStoreTail => true | _ => false end.
 Definition popping (p : pcT) : bool := match p with QRead | QWrite | QUse => true | _ => false end.
-Definition lastl (T : tst) : list nat := match last T with O => [] | S _ => [last T] end.
 Definition pcl (T : tst) : list nat :=
   if pushing (pc T) then [node T] else if popping (pc T) then [hd T] else [].
-Definition own_list (T : tst) : list nat := lastl T ++ pcl T ++ pushed (prog T).
+Definition own_list (T : tst) : list nat := pcl T ++ pushed (prog T).
 
 Definition producer_pc (p : pcT) : Prop :=
-  match p with PData | PNull | PXchg | PLink | Fin => True | _ => False end.
+  match p with PData | PNull | PLoadTail | PStoreTail | PLink | Fin => True | _ => False end.
+Definition consumer_pc (p : pcT) : Prop :=
+  match p with QHead | QNext | QSetHead | QRead | QWrite | QUse | Fin => True | _ => False end.
 
 Definition linkingN (s : st) (n : nat) : Prop :=
   exists t, pc (thr s t) = PLink /\ prev (thr s t) = n.
@@ -107,7 +123,8 @@ Definition local_ok (x : ist) (T : tst) : Prop :=
   let s := base x in
   match pc T with
   | PNull => dat s (node T) = arg T
-  | PXchg => dat s (node T) = arg T /\ nxt s (node T) = 0
+  | PLoadTail => dat s (node T) = arg T /\ nxt s (node T) = 0
+  | PStoreTail => dat s (node T) = arg T /\ nxt s (node T) = 0 /\ prev T = tail s
   | PLink => exists i, lo x <= i < hi x /\ prev T = nodeat x i /\ node T = nodeat x (S i) /\
                        arg T = valat x (S i)
   | QNext => hd T = nodeat x (lo x)
@@ -119,7 +136,7 @@ Definition local_ok (x : ist) (T : tst) : Prop :=
   | _ => True
   end.
 
-Record GInv (x : ist) : Prop := {
+Record GInv (pt : nat) (x : ist) : Prop := {
   g_ord : lo x <= hi x;
   g_head : head (base x) = nodeat x (lo x);
   g_tail : tail (base x) = nodeat x (hi x);
@@ -135,6 +152,7 @@ Record GInv (x : ist) : Prop := {
   g_luni : forall t u, pc (thr (base x) t) = PLink -> pc (thr (base x) u) = PLink ->
                        prev (thr (base x) t) = prev (thr (base x) u) -> t = u;
   g_cons : forall t, t <> 0 -> producer_pc (pc (thr (base x) t)) /\ pushonly (prog (thr (base x) t));
+  g_prod : forall t, t <> pt -> consumer_pc (pc (thr (base x) t)) /\ poponly (prog (thr (base x) t));
   g_ret : if popping (pc (thr (base x) 0)) then nret x + 1 = lo x else nret x = lo x;
   g_own_nd : forall t, NoDup (own_list (thr (base x) t));
   g_own_dj : forall t u n, In n (own_list (thr (base x) t)) -> In n (own_list (thr (base x) u)) -> t = u;
@@ -149,36 +167,43 @@ Ltac thr_cases u t :=
   [ rewrite ?upd_same in * | rewrite ?(upd_other _ t _ u) in * by assumption ].
 
 (* ---------- small facts ---------- *)
-Lemma own_next_op T : pcl T = [] -> own_list (next_op T) = own_list T.
+Lemma own_next_op' T : own_list (next_op T) = pushed (prog T).
 Proof.
-  unfold own_list, next_op, pcl, lastl. intros E.
-  destruct (prog T) as [|[n v| |v] r]; cbn [pc last prog pushing popping pushed node hd]; rewrite ?E; try reflexivity.
-  destruct (last T) eqn:L; cbn [pc last prog pushing popping pushed node hd app]; reflexivity.
+  unfold own_list, next_op, pcl.
+  destruct (prog T) as [|[n v|] r]; cbn [pc prog pushing popping pushed node hd app]; reflexivity.
 Qed.
 
+Lemma own_next_op T : pcl T = [] -> own_list (next_op T) = own_list T.
+Proof. intros E. rewrite own_next_op'. unfold own_list. rewrite E. reflexivity. Qed.
+
 Lemma next_op_pc T :
-  pc (next_op T) = PData \/ pc (next_op T) = PSkip \/ pc (next_op T) = QHead \/ pc (next_op T) = Fin.
+  pc (next_op T) = PData \/ pc (next_op T) = QHead \/ pc (next_op T) = Fin.
 Proof.
-  unfold next_op. destruct (prog T) as [|[n v| |v] r]; cbn; auto.
-  destruct (last T); cbn; auto.
+  unfold next_op. destruct (prog T) as [|[n v|] r]; cbn; auto.
 Qed.
 
 Lemma next_op_ok x T : local_ok x (next_op T).
 Proof.
-  unfold local_ok. destruct (next_op_pc T) as [E|[E|[E|E]]]; rewrite E; exact I.
+  unfold local_ok. destruct (next_op_pc T) as [E|[E|E]]; rewrite E; exact I.
 Qed.
 
 Lemma next_op_cons T :
   pushonly (prog T) -> producer_pc (pc (next_op T)) /\ pushonly (prog (next_op T)).
 Proof.
-  unfold next_op. destruct (prog T) as [|[n v| |v] r]; cbn; tauto.
+  unfold next_op. destruct (prog T) as [|[n v|] r]; cbn; tauto.
+Qed.
+
+Lemma next_op_prod T :
+  poponly (prog T) -> consumer_pc (pc (next_op T)) /\ poponly (prog (next_op T)).
+Proof.
+  unfold next_op. destruct (prog T) as [|[n v|] r]; cbn; tauto.
 Qed.
 
 Lemma next_op_not_plink T : pc (next_op T) <> PLink.
-Proof. destruct (next_op_pc T) as [E|[E|[E|E]]]; rewrite E; discriminate. Qed.
+Proof. destruct (next_op_pc T) as [E|[E|E]]; rewrite E; discriminate. Qed.
 
 Lemma next_op_popping T : popping (pc (next_op T)) = false.
-Proof. destruct (next_op_pc T) as [E|[E|[E|E]]]; rewrite E; reflexivity. Qed.
+Proof. destruct (next_op_pc T) as [E|[E|E]]; rewrite E; reflexivity. Qed.
 
 Lemma linkingN_upd s s' t T' n :
   thr s' = upd (thr s) t T' ->
@@ -212,28 +237,29 @@ Proof.
   intros H. apply map_ext_in. intros i Hi. apply in_seq in Hi. apply upd_other. lia.
 Qed.
 
-Lemma init_inv progs : wf progs -> GInv (iinit progs).
+Lemma init_inv pt progs : wf pt progs -> GInv pt (iinit progs).
 Proof.
-  intros [Wc Wn Wd Wz].
-  set (T0 := fun p => {| pc := Fin; node := 0; arg := 0; prev := 0; hd := 0; hn := 0; rdv := 0; last := 0;
-                         prog := p; opi := 0 |}).
+  intros [Wc Wp Wn Wz].
   assert (Own : forall t, own_list (thr (base (iinit progs)) t) = pushed (nth t progs [])).
-  { intros t. cbn. unfold idle_thread. fold (T0 (nth t progs [])). rewrite own_next_op by reflexivity. reflexivity. }
+  { intros t. cbn. unfold idle_thread. rewrite own_next_op'. reflexivity. }
   constructor; cbn [base iinit nodeat valat hi lo nret plog qlog init head tail nxt dat]; auto; try lia.
   - intros t. cbn. apply next_op_ok.
   - intros t u Hp. exfalso. cbn in Hp. exact (next_op_not_plink _ Hp).
   - intros t Ht. cbn. apply next_op_cons. cbn. apply Wc; exact Ht.
+  - intros t Ht. cbn. apply next_op_prod. cbn. apply Wp; exact Ht.
   - cbn. unfold idle_thread. rewrite next_op_popping. reflexivity.
   - intros t. rewrite Own. apply Wn.
-  - intros t u n. rewrite !Own. apply Wd.
+  - intros t u n. rewrite !Own. intros H1 H2.
+    destruct (Nat.eq_dec t pt) as [->|Nt]; [|rewrite (poponly_pushed _ (Wp t Nt)) in H1; destruct H1].
+    destruct (Nat.eq_dec u pt) as [->|Nu]; [reflexivity|rewrite (poponly_pushed _ (Wp u Nu)) in H2; destruct H2].
   - intros t n. rewrite Own. intros H. destruct (Wz t n H). split; auto.
 Qed.
 
 (* ------------------------------------------------------------------ *)
 (* Steps that change only thread t's private state and memory cells of
    nodes that t owns; the ghost sequence is unchanged. *)
-Lemma frame_step x t T' nxt' dat' nret' qlog' :
-  GInv x ->
+Lemma frame_step pt x t T' nxt' dat' nret' qlog' :
+  GInv pt x ->
   let s := base x in
   let s' := {| head := head s; tail := tail s; nxt := nxt'; dat := dat';
                thr := upd (thr s) t T'; nthr := nthr s |} in
@@ -244,14 +270,15 @@ Lemma frame_step x t T' nxt' dat' nret' qlog' :
   pc (thr s t) <> PLink -> pc T' <> PLink ->
   NoDup (own_list T') -> incl (own_list T') (own_list (thr s t)) ->
   (t <> 0 -> producer_pc (pc T') /\ pushonly (prog T')) ->
+  (t <> pt -> consumer_pc (pc T') /\ poponly (prog T')) ->
   (if popping (pc (upd (thr s) t T' 0)) then nret' + 1 = lo x else nret' = lo x) ->
   qlog' = map (valat x) (seq 1 nret') ->
   local_ok x' T' ->
-  GInv x'.
+  GInv pt x'.
 Proof.
-  intros G s s' x' Hn Hd A B Nd Inc Cons Ret Ql Loc.
-  destruct G as [Go Gh Gt Gi Gz G0 Gl Gla Gd Gloc Gu Gc Gr Ond Odj Onq Gp Gq].
-  fold s in Gh, Gt, G0, Gl, Gla, Gd, Gloc, Gu, Gc, Gr, Ond, Odj, Onq.
+  intros G s s' x' Hn Hd A B Nd Inc Cons Prod Ret Ql Loc.
+  destruct G as [Go Gh Gt Gi Gz G0 Gl Gla Gd Gloc Gu Gc Gpr Gr Ond Odj Onq Gp Gq].
+  fold s in Gh, Gt, G0, Gl, Gla, Gd, Gloc, Gu, Gc, Gpr, Gr, Ond, Odj, Onq.
   assert (Ethr : thr s' = upd (thr s) t T') by reflexivity.
   assert (NW : forall m, (forall i, lo x <= i <= hi x -> nodeat x i <> m) -> m <> 0 -> False -> True) by auto.
   assert (NxW : forall i, lo x <= i <= hi x -> nxt' (nodeat x i) = nxt s (nodeat x i)).
@@ -281,14 +308,17 @@ Proof.
     + rewrite upd_same. exact Loc.
     + rewrite upd_other by assumption. assert (Lu := Gloc u). unfold local_ok in *.
       destruct (pc (thr s u)) eqn:Hu; cbn [base nodeat valat hi lo nret x']; cbn [nxt dat s']; auto.
-      * rewrite (DtO u) by (auto; unfold own_list, pcl; rewrite Hu; cbn; apply in_or_app; right; left; reflexivity). exact Lu.
-      * rewrite (DtO u), (NxO u) by (auto; unfold own_list, pcl; rewrite Hu; cbn; apply in_or_app; right; left; reflexivity). exact Lu.
+      * rewrite (DtO u) by (auto; unfold own_list, pcl; rewrite Hu; cbn; left; reflexivity). exact Lu.
+      * rewrite (DtO u), (NxO u) by (auto; unfold own_list, pcl; rewrite Hu; cbn; left; reflexivity). exact Lu.
+      * rewrite (DtO u), (NxO u) by (auto; unfold own_list, pcl; rewrite Hu; cbn; left; reflexivity). exact Lu.
       * destruct Lu as (L1 & L2 & L3 & L4). repeat split; auto. rewrite Lk. exact L4.
       * destruct Lu as (L1 & L2). split; auto. rewrite L1. rewrite DtW by lia. rewrite <- L1. exact L2.
-      * rewrite (DtO u) by (auto; unfold own_list, pcl; rewrite Hu; cbn; apply in_or_app; right; left; reflexivity). exact Lu.
+      * rewrite (DtO u) by (auto; unfold own_list, pcl; rewrite Hu; cbn; left; reflexivity). exact Lu.
   - (* link uniqueness *)
     intros u v. thr_cases u t; thr_cases v t; intros; try congruence; auto.
   - (* consumer discipline *)
+    intros u Hu. thr_cases u t; auto.
+  - (* producer discipline *)
     intros u Hu. thr_cases u t; auto.
   - (* own nodup *)
     intros u. thr_cases u t; auto.
@@ -302,53 +332,53 @@ Proof.
 Qed.
 
 Lemma in_own_pushing T : pushing (pc T) = true -> In (node T) (own_list T).
-Proof. intros H. unfold own_list, pcl. rewrite H. apply in_or_app; right; left; reflexivity. Qed.
+Proof. intros H. unfold own_list, pcl. rewrite H. left; reflexivity. Qed.
 
 Lemma in_own_popping T : popping (pc T) = true -> In (hd T) (own_list T).
 Proof.
   intros H. unfold own_list, pcl. rewrite H.
   destruct (pushing (pc T)) eqn:P; [destruct (pc T); discriminate|].
-  apply in_or_app; right; left; reflexivity.
+  left; reflexivity.
 Qed.
 
 (* ------------------------------------------------------------------ *)
-(* the tail exchange: node T becomes element hi+1 of the sequence *)
-Lemma pxchg_inv x t :
-  GInv x -> pc (thr (base x) t) = PXchg ->
+(* the tail store: node T becomes element hi+1 of the sequence *)
+Lemma pstore_inv pt x t :
+  GInv pt x -> pc (thr (base x) t) = PStoreTail ->
   let s := base x in let T := thr s t in
   let s' := {| head := head s; tail := node T; nxt := nxt s; dat := dat s;
-               thr := upd (thr s) t
-                        {| pc := PLink; node := node T; arg := arg T; prev := tail s; hd := hd T; hn := hn T;
-                           rdv := rdv T; last := last T; prog := prog T; opi := opi T |};
-               nthr := nthr s |} in
-  GInv {| base := s'; nodeat := upd (nodeat x) (S (hi x)) (node T);
-          valat := upd (valat x) (S (hi x)) (arg T);
-          hi := S (hi x); lo := lo x; nret := nret x;
-          plog := plog x ++ [(t, arg T)]; qlog := qlog x |}.
+               thr := upd (thr s) t (with_pc T PLink); nthr := nthr s |} in
+  GInv pt {| base := s'; nodeat := upd (nodeat x) (S (hi x)) (node T);
+             valat := upd (valat x) (S (hi x)) (arg T);
+             hi := S (hi x); lo := lo x; nret := nret x;
+             plog := plog x ++ [(t, arg T)]; qlog := qlog x |}.
 Proof.
   intros G Hpc s T s'.
-  destruct G as [Go Gh Gt Gi Gz G0 Gl Gla Gd Gloc Gu Gc Gr Ond Odj Onq Gp Gq].
-  fold s in Gh, Gt, G0, Gl, Gla, Gd, Gloc, Gu, Gc, Gr, Ond, Odj, Onq.
+  destruct G as [Go Gh Gt Gi Gz G0 Gl Gla Gd Gloc Gu Gc Gpr Gr Ond Odj Onq Gp Gq].
+  fold s in Gh, Gt, G0, Gl, Gla, Gd, Gloc, Gu, Gc, Gpr, Gr, Ond, Odj, Onq.
   fold s T in Hpc.
-  set (TL := {| pc := PLink; node := node T; prev := tail s |}) in *.
+  set (TL := with_pc T PLink) in *.
   assert (Ethr : thr s' = upd (thr s) t TL) by reflexivity.
-  assert (LT := Gloc t). fold T in LT. unfold local_ok in LT. rewrite Hpc in LT. destruct LT as [LTd LTn].
+  assert (LT := Gloc t). fold T in LT. unfold local_ok in LT. rewrite Hpc in LT. destruct LT as (LTd & LTn & LTp).
+  assert (Tpt : t = pt).
+  { destruct (Nat.eq_dec t pt) as [|Ne]; auto. destruct (Gpr t Ne) as [P _]. fold T in P. rewrite Hpc in P. destruct P. }
   assert (OwnT : In (node T) (own_list T)) by (apply in_own_pushing; rewrite Hpc; reflexivity).
   destruct (Onq t _ OwnT) as [Nz Nw].
-  assert (OLT : own_list T = lastl T ++ node T :: pushed (prog T)).
+  assert (OLT : own_list T = node T :: pushed (prog T)).
   { unfold own_list, pcl. rewrite Hpc. reflexivity. }
-  assert (OLL : own_list TL = lastl T ++ pushed (prog T)) by reflexivity.
+  assert (OLL : own_list TL = pushed (prog T)) by reflexivity.
   assert (IncL : incl (own_list TL) (own_list T)).
-  { rewrite OLT, OLL. intros n Hn. apply in_app_or in Hn. apply in_or_app. destruct Hn; [left|right; right]; auto. }
+  { rewrite OLT, OLL. intros n Hn. right. exact Hn. }
   assert (NotL : ~ In (node T) (own_list TL)).
-  { rewrite OLL. specialize (Ond t). fold T in Ond. rewrite OLT in Ond. apply NoDup_remove_2 in Ond. exact Ond. }
+  { rewrite OLL. specialize (Ond t). fold T in Ond. rewrite OLT in Ond. inversion Ond; auto. }
   assert (NaO : forall i, i <= hi x -> upd (nodeat x) (S (hi x)) (node T) i = nodeat x i).
   { intros i Hi. apply upd_other. lia. }
   assert (VaO : forall i, i <= hi x -> upd (valat x) (S (hi x)) (arg T) i = valat x i).
   { intros i Hi. apply upd_other. lia. }
+  assert (PrevT : prev TL = nodeat x (hi x)) by (unfold TL; cbn [prev with_pc]; rewrite LTp; exact Gt).
   assert (Lk : forall i, lo x <= i < hi x -> (linkingN s' (nodeat x i) <-> linkingN s (nodeat x i))).
   { intros i Hi. rewrite (linkingN_upd s s' t TL _ Ethr). split.
-    - intros [[u [_ H]]|[_ H]]; [exists u; exact H|]. cbn in H. rewrite Gt in H.
+    - intros [[u [_ H]]|[_ H]]; [exists u; exact H|]. rewrite PrevT in H.
       apply Gi in H; lia.
     - intros [u [Hp Hh]]. left. exists u. repeat split; auto. intros ->. fold T in Hp. congruence. }
   assert (Nrl : nret x <= lo x) by (destruct (popping (pc (thr s 0))); lia).
@@ -367,18 +397,19 @@ Proof.
   - exact G0.
   - intros i Hi. destruct (Nat.eq_dec i (hi x)) as [->|Ni].
     + left. rewrite NaO by lia. split; [|exact Gla].
-      apply (linkingN_upd s s' t TL _ Ethr). right. split; [reflexivity|]. cbn. exact Gt.
+      apply (linkingN_upd s s' t TL _ Ethr). right. split; [reflexivity|exact PrevT].
     + rewrite !NaO by lia. rewrite Lk by lia. apply Gl. lia.
   - rewrite upd_same. exact LTn.
   - intros i Hi. destruct (Nat.eq_dec i (S (hi x))) as [->|Ni].
     + rewrite !upd_same. exact LTd.
     + rewrite NaO, VaO by lia. apply Gd. lia.
   - intros u. destruct (Nat.eq_dec u t) as [->|Hne].
-    + rewrite upd_same. unfold local_ok. cbn [pc TL base nodeat valat hi lo prev node].
-      exists (hi x). rewrite NaO by lia. rewrite !upd_same. repeat split; auto; lia.
+    + rewrite upd_same. unfold local_ok. cbn [pc TL with_pc base nodeat valat hi lo prev node arg].
+      exists (hi x). rewrite NaO by lia. rewrite !upd_same. repeat split; auto; try lia.
     + rewrite upd_other by assumption. assert (Lu := Gloc u). unfold local_ok in *.
-      destruct (pc (thr s u)) eqn:Hu; cbn [base nodeat valat hi lo nret]; cbn [nxt dat s']; auto.
-      * destruct Lu as [i (L1 & L2 & L3 & L4)]. exists i. rewrite !NaO, VaO by lia. repeat split; auto; lia.
+      assert (Cu : consumer_pc (pc (thr s u))) by (apply Gpr; congruence).
+      destruct (pc (thr s u)) eqn:Hu; cbn [base nodeat valat hi lo nret]; cbn [nxt dat s']; auto;
+        try (destruct Cu; fail).
       * rewrite NaO by lia. exact Lu.
       * destruct Lu as (L1 & L2 & L3 & L4). rewrite !NaO by lia. repeat split; auto; try lia.
         rewrite Lk by lia. exact L4.
@@ -387,16 +418,15 @@ Proof.
       * rewrite VaO by lia. exact Lu.
   - intros u v. destruct (Nat.eq_dec u t) as [->|Hu]; destruct (Nat.eq_dec v t) as [->|Hv];
       rewrite ?upd_same, ?(upd_other _ t _ u), ?(upd_other _ t _ v) by assumption; auto.
-    + intros _ Hv' E. exfalso. cbn in E. assert (Lv := Gloc v). unfold local_ok in Lv. rewrite Hv' in Lv.
-      destruct Lv as [i (L1 & L2 & L3)]. rewrite <- E, Gt in L2. apply Gi in L2; lia.
-    + intros Hu' _ E. exfalso. cbn in E. assert (Lu := Gloc u). unfold local_ok in Lu. rewrite Hu' in Lu.
-      destruct Lu as [i (L1 & L2 & L3)]. rewrite E, Gt in L2. apply Gi in L2; lia.
+    + intros _ Hv' E. exfalso. destruct (Gpr v ltac:(congruence)) as [P _]. rewrite Hv' in P. destruct P.
+    + intros Hu' _ E. exfalso. destruct (Gpr u ltac:(congruence)) as [P _]. rewrite Hu' in P. destruct P.
   - intros u Hu. thr_cases u t; auto. cbn. specialize (Gc t Hu). fold T in Gc. rewrite Hpc in Gc. tauto.
+  - intros u Hu. thr_cases u t; auto. congruence.
   - destruct (Nat.eq_dec 0 t) as [<-|Ne].
     + rewrite upd_same. cbn. fold T in Gr. rewrite Hpc in Gr. exact Gr.
     + rewrite upd_other by assumption. exact Gr.
   - intros u. thr_cases u t; auto. rewrite OLL. specialize (Ond t). fold T in Ond. rewrite OLT in Ond.
-    apply NoDup_remove_1 in Ond. exact Ond.
+    inversion Ond; auto.
   - intros u v n. thr_cases u t; thr_cases v t; intros H1 H2; auto.
     + apply IncL in H1. apply (Odj t v n); auto.
     + apply IncL in H2. apply (Odj u t n); auto.
@@ -417,17 +447,17 @@ Qed.
 
 (* ------------------------------------------------------------------ *)
 (* the link store prev->next := node *)
-Lemma plink_inv x t :
-  GInv x -> pc (thr (base x) t) = PLink ->
+Lemma plink_inv pt x t :
+  GInv pt x -> pc (thr (base x) t) = PLink ->
   let s := base x in let T := thr s t in
   let s' := {| head := head s; tail := tail s; nxt := upd (nxt s) (prev T) (node T); dat := dat s;
                thr := upd (thr s) t (next_op T); nthr := nthr s |} in
-  GInv {| base := s'; nodeat := nodeat x; valat := valat x; hi := hi x; lo := lo x; nret := nret x;
-          plog := plog x; qlog := qlog x |}.
+  GInv pt {| base := s'; nodeat := nodeat x; valat := valat x; hi := hi x; lo := lo x; nret := nret x;
+             plog := plog x; qlog := qlog x |}.
 Proof.
   intros G Hpc s T s'.
-  destruct G as [Go Gh Gt Gi Gz G0 Gl Gla Gd Gloc Gu Gc Gr Ond Odj Onq Gp Gq].
-  fold s in Gh, Gt, G0, Gl, Gla, Gd, Gloc, Gu, Gc, Gr, Ond, Odj, Onq.
+  destruct G as [Go Gh Gt Gi Gz G0 Gl Gla Gd Gloc Gu Gc Gpr Gr Ond Odj Onq Gp Gq].
+  fold s in Gh, Gt, G0, Gl, Gla, Gd, Gloc, Gu, Gc, Gpr, Gr, Ond, Odj, Onq.
   fold s T in Hpc.
   assert (Ethr : thr s' = upd (thr s) t (next_op T)) by reflexivity.
   assert (LT := Gloc t). fold T in LT. unfold local_ok in LT. rewrite Hpc in LT.
@@ -458,12 +488,14 @@ Proof.
     + rewrite upd_other by assumption. assert (Lu := Gloc u). unfold local_ok in *.
       destruct (pc (thr s u)) eqn:Hu; cbn [base nodeat valat hi lo nret]; cbn [nxt dat s']; auto.
       * rewrite (NxO u) by (apply in_own_pushing; rewrite Hu; reflexivity). exact Lu.
+      * rewrite (NxO u) by (apply in_own_pushing; rewrite Hu; reflexivity). exact Lu.
       * destruct Lu as (L1 & L2 & L3 & L4). repeat split; auto. rewrite Lk. tauto.
   - intros u v. destruct (Nat.eq_dec u t) as [->|Hu]; destruct (Nat.eq_dec v t) as [->|Hv];
       rewrite ?upd_same, ?(upd_other _ t _ u), ?(upd_other _ t _ v) by assumption; auto.
     + intros Hp. exfalso; exact (next_op_not_plink _ Hp).
     + intros _ Hp. exfalso; exact (next_op_not_plink _ Hp).
   - intros u Hu. thr_cases u t; auto. apply next_op_cons. apply (Gc t Hu).
+  - intros u Hu. thr_cases u t; auto. destruct (Gpr t Hu) as [P _]. fold T in P. rewrite Hpc in P. destruct P.
   - destruct (Nat.eq_dec 0 t) as [<-|Ne].
     + rewrite upd_same. rewrite next_op_popping. fold T in Gr. rewrite Hpc in Gr. exact Gr.
     + rewrite upd_other by assumption. exact Gr.
@@ -475,17 +507,17 @@ Qed.
 (* ------------------------------------------------------------------ *)
 (* the consumer advances head: the old stub leaves the sequence and becomes
    the consumer's private node *)
-Lemma qsethead_inv x t :
-  GInv x -> pc (thr (base x) t) = QSetHead ->
+Lemma qsethead_inv pt x t :
+  GInv pt x -> pc (thr (base x) t) = QSetHead ->
   let s := base x in let T := thr s t in
   let s' := {| head := hn T; tail := tail s; nxt := nxt s; dat := dat s;
                thr := upd (thr s) t (with_pc T QRead); nthr := nthr s |} in
-  GInv {| base := s'; nodeat := nodeat x; valat := valat x; hi := hi x; lo := S (lo x); nret := nret x;
-          plog := plog x; qlog := qlog x |}.
+  GInv pt {| base := s'; nodeat := nodeat x; valat := valat x; hi := hi x; lo := S (lo x); nret := nret x;
+             plog := plog x; qlog := qlog x |}.
 Proof.
   intros G Hpc s T s'.
-  destruct G as [Go Gh Gt Gi Gz G0 Gl Gla Gd Gloc Gu Gc Gr Ond Odj Onq Gp Gq].
-  fold s in Gh, Gt, G0, Gl, Gla, Gd, Gloc, Gu, Gc, Gr, Ond, Odj, Onq.
+  destruct G as [Go Gh Gt Gi Gz G0 Gl Gla Gd Gloc Gu Gc Gpr Gr Ond Odj Onq Gp Gq].
+  fold s in Gh, Gt, G0, Gl, Gla, Gd, Gloc, Gu, Gc, Gpr, Gr, Ond, Odj, Onq.
   fold s T in Hpc.
   assert (T0 : t = 0).
   { destruct (Nat.eq_dec t 0) as [|Ne]; auto. destruct (Gc t Ne) as [P _]. fold T in P. rewrite Hpc in P. destruct P. }
@@ -494,15 +526,13 @@ Proof.
   destruct LT as (L1 & L2 & L3 & L4).
   assert (Lk : forall n, linkingN s' n <-> linkingN s n).
   { intros n. apply (linkingN_local s s' t _ n Ethr); fold T; [rewrite Hpc|cbn]; discriminate. }
-  assert (OLT : own_list T = lastl T ++ pushed (prog T)).
+  assert (OLT : own_list T = pushed (prog T)).
   { unfold own_list, pcl. rewrite Hpc. reflexivity. }
-  assert (OLR : own_list (with_pc T QRead) = lastl T ++ hd T :: pushed (prog T)) by reflexivity.
+  assert (OLR : own_list (with_pc T QRead) = hd T :: pushed (prog T)) by reflexivity.
   assert (HdW : forall n, In n (own_list T) -> n <> hd T).
   { intros n Hn E. destruct (Onq t n Hn) as [_ Q]. apply (Q (lo x)); [lia|congruence]. }
   assert (InR : forall n, In n (own_list (with_pc T QRead)) -> n = hd T \/ In n (own_list T)).
-  { intros n. rewrite OLR, OLT. intros H. apply in_app_or in H. destruct H as [H|[H|H]]; auto.
-    - right. apply in_or_app; auto.
-    - right. apply in_or_app; auto. }
+  { intros n. rewrite OLR, OLT. intros [H|H]; auto. }
   constructor; cbn [base nodeat valat hi lo nret plog qlog]; cbn [head tail nxt dat thr s']; auto.
   - intros i j Hi Hj. apply Gi; lia.
   - intros i Hi. apply Gz; lia.
@@ -518,9 +548,10 @@ Proof.
       destruct (Nat.eq_dec i (lo x)) as [->|]; [|lia]. exfalso. apply L4. exists u. auto.
   - intros u v. thr_cases u t; thr_cases v t; intros; try discriminate; auto.
   - intros u Hu. thr_cases u t; auto. lia.
+  - intros u Hu. thr_cases u t; auto. destruct (Gpr t Hu) as [P Q]. fold T in P, Q. split; [exact I|exact Q].
   - subst t. rewrite upd_same. cbn. fold T in Gr. rewrite Hpc in Gr. cbn in Gr. lia.
   - intros u. thr_cases u t; auto. rewrite OLR. specialize (Ond t). fold T in Ond. rewrite OLT in Ond.
-    apply (NoDup_Add (Add_app (hd T) (lastl T) (pushed (prog T)))). split; auto.
+    constructor; auto.
     intros H. apply (HdW (hd T)); auto. rewrite OLT. exact H.
   - intros u v n. thr_cases u t; thr_cases v t; intros H1 H2; auto.
     + destruct (InR n H1) as [->|H1']; [|apply (Odj t v n); auto].
@@ -541,22 +572,23 @@ Lemma ret_keep (thrs : nat -> tst) t T' (nr l : nat) :
   (if popping (pc (upd thrs t T' 0)) then nr + 1 = l else nr = l).
 Proof. intros E H. destruct (Nat.eq_dec 0 t) as [<-|Ne]; [rewrite upd_same, E|rewrite upd_other by assumption]; exact H. Qed.
 
-Ltac own_same Hpc := unfold own_list, pcl, lastl; cbn [pc last prog node hd with_pc]; rewrite Hpc; cbn [pushing popping].
+Ltac own_same Hpc := unfold own_list, pcl; cbn [pc prog node hd with_pc]; rewrite Hpc; cbn [pushing popping].
 
 Ltac nochange := let m := fresh "m" in let Hm := fresh "Hm" in intros m Hm; exfalso; apply Hm; reflexivity.
 
-Theorem linv_step x t : GInv x -> GInv (lstep x t).
+Theorem linv_step pt x t : GInv pt x -> GInv pt (lstep x t).
 Proof.
   intros G. unfold lstep, step. remember (thr (base x) t) as T eqn:HT.
-  assert (LT := g_loc x G t). rewrite <- HT in LT. unfold local_ok in LT.
-  assert (CT : t <> 0 -> producer_pc (pc T) /\ pushonly (prog T)) by (rewrite HT; apply (g_cons x G)).
-  assert (OT : NoDup (own_list T)) by (rewrite HT; apply (g_own_nd x G)).
+  assert (LT := g_loc pt x G t). rewrite <- HT in LT. unfold local_ok in LT.
+  assert (CT : t <> 0 -> producer_pc (pc T) /\ pushonly (prog T)) by (rewrite HT; apply (g_cons pt x G)).
+  assert (PT : t <> pt -> consumer_pc (pc T) /\ poponly (prog T)) by (rewrite HT; apply (g_prod pt x G)).
+  assert (OT : NoDup (own_list T)) by (rewrite HT; apply (g_own_nd pt x G)).
   assert (RK : forall T', popping (pc T') = popping (pc T) ->
                if popping (pc (upd (thr (base x)) t T' 0)) then nret x + 1 = lo x else nret x = lo x).
-  { intros T' E. apply ret_keep; [rewrite <- HT; exact E|apply (g_ret x G)]. }
+  { intros T' E. apply ret_keep; [rewrite <- HT; exact E|apply (g_ret pt x G)]. }
   destruct (pc T) eqn:Hpc; cbn [fst].
   - (* PData *)
-    apply (frame_step x t (with_pc T PNull) (nxt (base x)) (upd (dat (base x)) (node T) (arg T)) (nret x) (qlog x) G);
+    apply (frame_step pt x t (with_pc T PNull) (nxt (base x)) (upd (dat (base x)) (node T) (arg T)) (nret x) (qlog x) G);
       rewrite <- ?HT.
     + nochange.
     + intros m Hm. destruct (Nat.eq_dec m (node T)) as [->|Ne]; [|rewrite upd_other in Hm by assumption; congruence].
@@ -566,42 +598,46 @@ Proof.
     + replace (own_list (with_pc T PNull)) with (own_list T); auto. own_same Hpc. reflexivity.
     + replace (own_list (with_pc T PNull)) with (own_list T); [apply incl_refl|]. own_same Hpc. reflexivity.
     + intros Ht. destruct (CT Ht). split; [exact I|assumption].
+    + intros Ht. destruct (PT Ht) as [[] _].
     + apply RK. reflexivity.
-    + apply (g_qlog x G).
+    + apply (g_qlog pt x G).
     + unfold local_ok. cbn. apply upd_same.
   - (* PNull *)
-    apply (frame_step x t (with_pc T PXchg) (upd (nxt (base x)) (node T) 0) (dat (base x)) (nret x) (qlog x) G);
+    apply (frame_step pt x t (with_pc T PLoadTail) (upd (nxt (base x)) (node T) 0) (dat (base x)) (nret x) (qlog x) G);
       rewrite <- ?HT.
     + intros m Hm. destruct (Nat.eq_dec m (node T)) as [->|Ne]; [|rewrite upd_other in Hm by assumption; congruence].
       apply in_own_pushing. rewrite Hpc. reflexivity.
     + nochange.
     + rewrite Hpc; discriminate.
     + cbn; discriminate.
-    + replace (own_list (with_pc T PXchg)) with (own_list T); auto. own_same Hpc. reflexivity.
-    + replace (own_list (with_pc T PXchg)) with (own_list T); [apply incl_refl|]. own_same Hpc. reflexivity.
+    + replace (own_list (with_pc T PLoadTail)) with (own_list T); auto. own_same Hpc. reflexivity.
+    + replace (own_list (with_pc T PLoadTail)) with (own_list T); [apply incl_refl|]. own_same Hpc. reflexivity.
     + intros Ht. destruct (CT Ht). split; [exact I|assumption].
+    + intros Ht. destruct (PT Ht) as [[] _].
     + apply RK. reflexivity.
-    + apply (g_qlog x G).
+    + apply (g_qlog pt x G).
     + unfold local_ok. cbn. split; [exact LT|apply upd_same].
-  - (* PXchg *)
-    subst T. apply pxchg_inv; auto.
-  - (* PLink *)
-    subst T. apply plink_inv; auto.
-  - (* PSkip *)
-    apply (frame_step x t (next_op T) (nxt (base x)) (dat (base x)) (nret x) (qlog x) G); rewrite <- ?HT.
+  - (* PLoadTail *)
+    match goal with |- GInv _ {| base := set_thr _ _ ?X |} =>
+      apply (frame_step pt x t X (nxt (base x)) (dat (base x)) (nret x) (qlog x) G); rewrite <- ?HT end.
     + nochange.
     + nochange.
     + rewrite Hpc; discriminate.
-    + apply next_op_not_plink.
-    + rewrite own_next_op; auto. unfold pcl. rewrite Hpc. reflexivity.
-    + rewrite own_next_op; [apply incl_refl|]. unfold pcl. rewrite Hpc. reflexivity.
-    + intros Ht. apply next_op_cons. apply (CT Ht).
-    + apply RK. apply next_op_popping.
-    + apply (g_qlog x G).
-    + apply next_op_ok.
+    + cbn; discriminate.
+    + match goal with |- NoDup ?l => replace l with (own_list T); auto end. own_same Hpc. reflexivity.
+    + match goal with |- incl ?l _ => replace l with (own_list T); [apply incl_refl|] end. own_same Hpc. reflexivity.
+    + intros Ht. destruct (CT Ht). split; [exact I|assumption].
+    + intros Ht. destruct (PT Ht) as [[] _].
+    + apply RK. reflexivity.
+    + apply (g_qlog pt x G).
+    + unfold local_ok. cbn. destruct LT. repeat split; auto.
+  - (* PStoreTail *)
+    subst T. apply pstore_inv; auto.
+  - (* PLink *)
+    subst T. apply plink_inv; auto.
   - (* QHead *)
-    match goal with |- GInv {| base := set_thr _ _ ?X |} =>
-      apply (frame_step x t X (nxt (base x)) (dat (base x)) (nret x) (qlog x) G); rewrite <- ?HT end.
+    match goal with |- GInv _ {| base := set_thr _ _ ?X |} =>
+      apply (frame_step pt x t X (nxt (base x)) (dat (base x)) (nret x) (qlog x) G); rewrite <- ?HT end.
     + nochange.
     + nochange.
     + rewrite Hpc; discriminate.
@@ -609,12 +645,13 @@ Proof.
     + match goal with |- NoDup ?l => replace l with (own_list T); auto end. own_same Hpc. reflexivity.
     + match goal with |- incl ?l _ => replace l with (own_list T); [apply incl_refl|] end. own_same Hpc. reflexivity.
     + intros Ht. destruct (CT Ht) as [[] _].
+    + intros Ht. destruct (PT Ht). split; [exact I|assumption].
     + apply RK. reflexivity.
-    + apply (g_qlog x G).
-    + unfold local_ok. cbn. apply (g_head x G).
+    + apply (g_qlog pt x G).
+    + unfold local_ok. cbn. apply (g_head pt x G).
   - (* QNext *)
     destruct (nxt (base x) (hd T)) eqn:Hnx; cbn [fst].
-    + apply (frame_step x t (next_op T) (nxt (base x)) (dat (base x)) (nret x) (qlog x) G); rewrite <- ?HT.
+    + apply (frame_step pt x t (next_op T) (nxt (base x)) (dat (base x)) (nret x) (qlog x) G); rewrite <- ?HT.
       * nochange.
       * nochange.
       * rewrite Hpc; discriminate.
@@ -622,11 +659,12 @@ Proof.
       * rewrite own_next_op; auto. unfold pcl. rewrite Hpc. reflexivity.
       * rewrite own_next_op; [apply incl_refl|]. unfold pcl. rewrite Hpc. reflexivity.
       * intros Ht. destruct (CT Ht) as [[] _].
+      * intros Ht. apply next_op_prod. apply (PT Ht).
       * apply RK. apply next_op_popping.
-      * apply (g_qlog x G).
+      * apply (g_qlog pt x G).
       * apply next_op_ok.
-    + match goal with |- GInv {| base := set_thr _ _ ?X |} =>
-        apply (frame_step x t X (nxt (base x)) (dat (base x)) (nret x) (qlog x) G); rewrite <- ?HT end.
+    + match goal with |- GInv _ {| base := set_thr _ _ ?X |} =>
+        apply (frame_step pt x t X (nxt (base x)) (dat (base x)) (nret x) (qlog x) G); rewrite <- ?HT end.
       * nochange.
       * nochange.
       * rewrite Hpc; discriminate.
@@ -634,25 +672,26 @@ Proof.
       * match goal with |- NoDup ?l => replace l with (own_list T); auto end. own_same Hpc. reflexivity.
       * match goal with |- incl ?l _ => replace l with (own_list T); [apply incl_refl|] end. own_same Hpc. reflexivity.
       * intros Ht. destruct (CT Ht) as [[] _].
+      * intros Ht. destruct (PT Ht). split; [exact I|assumption].
       * apply RK. reflexivity.
-      * apply (g_qlog x G).
+      * apply (g_qlog pt x G).
       * unfold local_ok. cbn [pc base nodeat lo hi hd hn].
         rewrite LT in Hnx.
         assert (lo x < hi x).
-        { destruct (Nat.eq_dec (lo x) (hi x)) as [E|]; [|pose proof (g_ord x G); lia].
-          rewrite E in Hnx. rewrite (g_last x G) in Hnx. discriminate. }
-        destruct (g_link x G (lo x) ltac:(lia)) as [[A B]|[A B]]; [congruence|].
+        { destruct (Nat.eq_dec (lo x) (hi x)) as [E|]; [|pose proof (g_ord pt x G); lia].
+          rewrite E in Hnx. rewrite (g_last pt x G) in Hnx. discriminate. }
+        destruct (g_link pt x G (lo x) ltac:(lia)) as [[A B]|[A B]]; [congruence|].
         repeat split; auto; try congruence.
         intros L. apply A. revert L.
         match goal with |- linkingN ?s' _ -> _ =>
-          apply (linkingN_local (base x) s' t {| pc := QSetHead; node := node T; arg := arg T; prev := prev T; hd := hd T; hn := S n; rdv := rdv T; last := last T; prog := prog T; opi := opi T |}) end;
+          apply (linkingN_local (base x) s' t {| pc := QSetHead; node := node T; arg := arg T; prev := prev T; hd := hd T; hn := S n; rdv := rdv T; prog := prog T; opi := opi T |}) end;
           [reflexivity| |cbn; discriminate].
         rewrite <- HT, Hpc. discriminate.
   - (* QSetHead *)
     subst T. apply qsethead_inv; auto.
   - (* QRead *)
-    match goal with |- GInv {| base := set_thr _ _ ?X |} =>
-      apply (frame_step x t X (nxt (base x)) (dat (base x)) (nret x) (qlog x) G); rewrite <- ?HT end.
+    match goal with |- GInv _ {| base := set_thr _ _ ?X |} =>
+      apply (frame_step pt x t X (nxt (base x)) (dat (base x)) (nret x) (qlog x) G); rewrite <- ?HT end.
     + nochange.
     + nochange.
     + rewrite Hpc; discriminate.
@@ -660,11 +699,12 @@ Proof.
     + match goal with |- NoDup ?l => replace l with (own_list T); auto end. own_same Hpc. reflexivity.
     + match goal with |- incl ?l _ => replace l with (own_list T); [apply incl_refl|] end. own_same Hpc. reflexivity.
     + intros Ht. destruct (CT Ht) as [[] _].
+    + intros Ht. destruct (PT Ht). split; [exact I|assumption].
     + apply RK. reflexivity.
-    + apply (g_qlog x G).
+    + apply (g_qlog pt x G).
     + unfold local_ok. cbn. apply LT.
   - (* QWrite *)
-    apply (frame_step x t (with_pc T QUse) (nxt (base x)) (upd (dat (base x)) (hd T) (rdv T)) (nret x) (qlog x) G);
+    apply (frame_step pt x t (with_pc T QUse) (nxt (base x)) (upd (dat (base x)) (hd T) (rdv T)) (nret x) (qlog x) G);
       rewrite <- ?HT.
     + nochange.
     + intros m Hm. destruct (Nat.eq_dec m (hd T)) as [->|Ne]; [|rewrite upd_other in Hm by assumption; congruence].
@@ -674,37 +714,34 @@ Proof.
     + replace (own_list (with_pc T QUse)) with (own_list T); auto. own_same Hpc. reflexivity.
     + replace (own_list (with_pc T QUse)) with (own_list T); [apply incl_refl|]. own_same Hpc. reflexivity.
     + intros Ht. destruct (CT Ht) as [[] _].
+    + intros Ht. destruct (PT Ht). split; [exact I|assumption].
     + apply RK. reflexivity.
-    + apply (g_qlog x G).
+    + apply (g_qlog pt x G).
     + unfold local_ok. cbn. rewrite upd_same. exact LT.
   - (* QUse *)
     assert (T0 : t = 0).
     { destruct (Nat.eq_dec t 0) as [|Ne]; auto. destruct (CT Ne) as [[] _]. }
-    assert (HdO : In (hd T) (own_list T)) by (apply in_own_popping; rewrite Hpc; reflexivity).
-    assert (Hnz : hd T <> 0).
-    { assert (HdO' := HdO). rewrite HT in HdO'. destruct (g_own_nq x G t _ HdO') as [Q _]. rewrite <- HT in Q. exact Q. }
-    assert (OD : own_list (next_op (done_pop T)) = hd T :: pushed (prog T)).
-    { rewrite own_next_op by reflexivity. unfold own_list, pcl, lastl. cbn. destruct (hd T); [congruence|reflexivity]. }
-    assert (OTT : own_list T = lastl T ++ hd T :: pushed (prog T)).
+    assert (OTT : own_list T = hd T :: pushed (prog T)).
     { unfold own_list, pcl. rewrite Hpc. reflexivity. }
-    assert (Rt := g_ret x G). rewrite <- T0, <- HT, Hpc in Rt. cbn in Rt.
-    apply (frame_step x t (next_op (done_pop T)) (nxt (base x)) (dat (base x)) (S (nret x))
+    assert (Rt := g_ret pt x G). rewrite <- T0, <- HT, Hpc in Rt. cbn in Rt.
+    apply (frame_step pt x t (next_op T) (nxt (base x)) (dat (base x)) (S (nret x))
                       (qlog x ++ [dat (base x) (hd T)]) G); rewrite <- ?HT.
     + nochange.
     + nochange.
     + rewrite Hpc; discriminate.
     + apply next_op_not_plink.
-    + rewrite OD. rewrite OTT in OT. clear - OT. induction (lastl T); cbn in *; auto. inversion OT; auto.
-    + rewrite OD, OTT. intros n Hn. apply in_or_app. right. exact Hn.
+    + rewrite own_next_op'. rewrite OTT in OT. inversion OT; auto.
+    + rewrite own_next_op', OTT. intros n Hn. right. exact Hn.
     + intros Ht. contradiction.
+    + intros Ht. apply next_op_prod. apply (PT Ht).
     + subst t. rewrite upd_same. rewrite next_op_popping. lia.
-    + rewrite seq_snoc, map_app. cbn [map]. rewrite <- (g_qlog x G). f_equal. rewrite LT. f_equal. f_equal. lia.
+    + rewrite seq_snoc, map_app. cbn [map]. rewrite <- (g_qlog pt x G). f_equal. rewrite LT. f_equal. f_equal. lia.
     + apply next_op_ok.
   - (* Fin *)
     destruct x; exact G.
 Qed.
 
-Theorem ireach_inv progs x : wf progs -> ireach progs x -> GInv x.
+Theorem ireach_inv pt progs x : wf pt progs -> ireach progs x -> GInv pt x.
 Proof.
   intros W. induction 1 as [|x t R IH].
   - apply init_inv; exact W.
@@ -714,124 +751,118 @@ Qed.
 (* ------------------------------------------------------------------ *)
 (* the statements used by Properties_C15.v *)
 
-Lemma qlog_length x : GInv x -> length (qlog x) = nret x.
-Proof. intros G. rewrite (g_qlog x G), map_length, seq_length. reflexivity. Qed.
+Lemma qlog_length pt x : GInv pt x -> length (qlog x) = nret x.
+Proof. intros G. rewrite (g_qlog pt x G), map_length, seq_length. reflexivity. Qed.
 
-Lemma plog_length x : GInv x -> length (plog x) = hi x.
-Proof. intros G. rewrite <- (map_length snd), (g_plog x G), map_length, seq_length. reflexivity. Qed.
+Lemma plog_length pt x : GInv pt x -> length (plog x) = hi x.
+Proof. intros G. rewrite <- (map_length snd), (g_plog pt x G), map_length, seq_length. reflexivity. Qed.
 
-Lemma nret_le x : GInv x -> nret x <= lo x <= hi x.
-Proof. intros G. pose proof (g_ret x G). pose proof (g_ord x G). destruct (popping _); lia. Qed.
+Lemma nret_le pt x : GInv pt x -> nret x <= lo x <= hi x.
+Proof. intros G. pose proof (g_ret pt x G). pose proof (g_ord pt x G). destruct (popping _); lia. Qed.
 
 (* data of the nodes queued behind the stub, oldest first *)
 Definition content (x : ist) : list nat :=
   map (fun i => dat (base x) (nodeat x i)) (seq (S (lo x)) (hi x - lo x)).
 
-Lemma fifo_of_inv x : GInv x ->
+Lemma fifo_of_inv pt x : GInv pt x ->
   exists pend, map snd (plog x) = qlog x ++ pend ++ content x /\
                length pend = if popping (pc (thr (base x) 0)) then 1 else 0.
 Proof.
-  intros G. pose proof (nret_le x G) as L. pose proof (g_ret x G) as R.
+  intros G. pose proof (nret_le pt x G) as L. pose proof (g_ret pt x G) as R.
   exists (map (valat x) (seq (S (nret x)) (lo x - nret x))). split.
-  - rewrite (g_plog x G), (g_qlog x G). unfold content.
+  - rewrite (g_plog pt x G), (g_qlog pt x G). unfold content.
     replace (map (fun i => dat (base x) (nodeat x i)) (seq (S (lo x)) (hi x - lo x)))
       with (map (valat x) (seq (S (lo x)) (hi x - lo x))).
     + rewrite <- !map_app. f_equal.
       replace (hi x) with (nret x + ((lo x - nret x) + (hi x - lo x))) at 1 by lia.
       rewrite !seq_app. f_equal. f_equal. f_equal. lia.
-    + apply map_ext_in. intros i Hi. apply in_seq in Hi. symmetry. apply (g_dat x G). lia.
+    + apply map_ext_in. intros i Hi. apply in_seq in Hi. symmetry. apply (g_dat pt x G). lia.
   - rewrite map_length, seq_length. destruct (popping _); lia.
 Qed.
 
-Lemma prefix_of_inv x : GInv x -> exists rest, map snd (plog x) = qlog x ++ rest.
-Proof. intros G. destruct (fifo_of_inv x G) as [p [E _]]. eexists. exact E. Qed.
+Lemma prefix_of_inv pt x : GInv pt x -> exists rest, map snd (plog x) = qlog x ++ rest.
+Proof. intros G. destruct (fifo_of_inv pt x G) as [p [E _]]. eexists. exact E. Qed.
 
-Lemma kth_of_inv x k v : GInv x ->
+Lemma kth_of_inv pt x k v : GInv pt x ->
   nth_error (qlog x) k = Some v -> nth_error (map snd (plog x)) k = Some v.
 Proof.
-  intros G H. destruct (prefix_of_inv x G) as [r E]. rewrite E.
+  intros G H. destruct (prefix_of_inv pt x G) as [r E]. rewrite E.
   rewrite nth_error_app1; auto. apply nth_error_Some. congruence.
 Qed.
 
-Lemma pushed_only_of_inv x v : GInv x -> In v (qlog x) -> exists t, In (t, v) (plog x).
+Lemma pushed_only_of_inv pt x v : GInv pt x -> In v (qlog x) -> exists t, In (t, v) (plog x).
 Proof.
-  intros G H. destruct (prefix_of_inv x G) as [r E].
+  intros G H. destruct (prefix_of_inv pt x G) as [r E].
   assert (I : In v (map snd (plog x))) by (rewrite E; apply in_or_app; auto).
   apply in_map_iff in I. destruct I as [[t w] [E1 I]]. cbn in E1. subst w. exists t; exact I.
 Qed.
 
 (* trypop about to return NULL *)
-Lemma empty_justified_of_inv x t : GInv x ->
+Lemma empty_justified_of_inv pt x t : GInv pt x ->
   pc (thr (base x) t) = QNext -> nxt (base x) (hd (thr (base x) t)) = 0 ->
   map snd (plog x) = qlog x \/
   exists u, pc (thr (base x) u) = PLink /\ prev (thr (base x) u) = head (base x) /\
             nth_error (map snd (plog x)) (length (qlog x)) = Some (arg (thr (base x) u)).
 Proof.
   intros G Hpc Hn.
-  assert (LT := g_loc x G t). unfold local_ok in LT. rewrite Hpc in LT.
+  assert (LT := g_loc pt x G t). unfold local_ok in LT. rewrite Hpc in LT.
   assert (T0 : t = 0).
-  { destruct (Nat.eq_dec t 0) as [|Ne]; auto. destruct (g_cons x G t Ne) as [P _]. rewrite Hpc in P. destruct P. }
-  assert (R := g_ret x G). rewrite <- T0, Hpc in R. cbn in R.
-  pose proof (g_ord x G) as O.
+  { destruct (Nat.eq_dec t 0) as [|Ne]; auto. destruct (g_cons pt x G t Ne) as [P _]. rewrite Hpc in P. destruct P. }
+  assert (R := g_ret pt x G). rewrite <- T0, Hpc in R. cbn in R.
+  pose proof (g_ord pt x G) as O.
   destruct (Nat.eq_dec (lo x) (hi x)) as [E|Ne].
-  - left. rewrite (g_plog x G), (g_qlog x G). congruence.
-  - right. rewrite LT in Hn. destruct (g_link x G (lo x) ltac:(lia)) as [[[u [Hu Pu]] _]|[_ B]].
-    + exists u. split; [exact Hu|]. split; [rewrite (g_head x G); exact Pu|].
-      assert (Lu := g_loc x G u). unfold local_ok in Lu. rewrite Hu in Lu.
-      destruct Lu as [i (A & B & C & D)]. rewrite Pu in B. apply (g_inj x G) in B; [|lia|lia]. subst i.
-      rewrite (qlog_length x G), (g_plog x G), R, D.
+  - left. rewrite (g_plog pt x G), (g_qlog pt x G). congruence.
+  - right. rewrite LT in Hn. destruct (g_link pt x G (lo x) ltac:(lia)) as [[[u [Hu Pu]] _]|[_ B]].
+    + exists u. split; [exact Hu|]. split; [rewrite (g_head pt x G); exact Pu|].
+      assert (Lu := g_loc pt x G u). unfold local_ok in Lu. rewrite Hu in Lu.
+      destruct Lu as [i (A & B & C & D)]. rewrite Pu in B. apply (g_inj pt x G) in B; [|lia|lia]. subst i.
+      rewrite (qlog_length pt x G), (g_plog pt x G), R, D.
       rewrite nth_error_map. rewrite nth_error_nth' with (d := 0) by (rewrite seq_length; lia).
       rewrite seq_nth by lia. reflexivity.
-    + exfalso. apply (g_nz x G (S (lo x))); [lia|congruence].
+    + exfalso. apply (g_nz pt x G (S (lo x))); [lia|congruence].
 Qed.
 
-(* thread T holds node n privately: it is being returned by trypop or was
-   returned by T's last trypop *)
-Definition holds (T : tst) (n : nat) : Prop :=
-  (popping (pc T) = true /\ hd T = n) \/ (last T = n /\ n <> 0).
+(* thread T holds node n privately: it is being returned by trypop *)
+Definition holds (T : tst) (n : nat) : Prop := popping (pc T) = true /\ hd T = n.
 
 Lemma holds_own T n : holds T n -> In n (own_list T).
-Proof.
-  intros [[P E]|[E Nz]].
-  - subst n. apply in_own_popping; exact P.
-  - unfold own_list, lastl. apply in_or_app. left. rewrite E. destruct n; [congruence|left; reflexivity].
-Qed.
+Proof. intros [P E]. subst n. apply in_own_popping; exact P. Qed.
 
-Lemma reach_in_window x k : GInv x ->
+Lemma reach_in_window pt x k : GInv pt x ->
   Nat.iter k (nxt (base x)) (head (base x)) = 0 \/
   exists i, lo x <= i <= hi x /\ nodeat x i = Nat.iter k (nxt (base x)) (head (base x)).
 Proof.
   intros G. induction k as [|k IH]; simpl Nat.iter.
-  - right. exists (lo x). pose proof (g_ord x G). split; [lia|]. symmetry. apply (g_head x G).
+  - right. exists (lo x). pose proof (g_ord pt x G). split; [lia|]. symmetry. apply (g_head pt x G).
   - destruct IH as [E|[i [Hi E]]].
-    + left. rewrite E. apply (g_nxt0 x G).
+    + left. rewrite E. apply (g_nxt0 pt x G).
     + rewrite <- E. destruct (Nat.eq_dec i (hi x)) as [->|Ne].
-      * left. apply (g_last x G).
-      * destruct (g_link x G i ltac:(lia)) as [[_ B]|[_ B]]; [left; exact B|].
+      * left. apply (g_last pt x G).
+      * destruct (g_link pt x G i ltac:(lia)) as [[_ B]|[_ B]]; [left; exact B|].
         right. exists (S i). split; [lia|]. symmetry. exact B.
 Qed.
 
-Lemma ownership_of_inv x t n : GInv x -> holds (thr (base x) t) n ->
+Lemma ownership_of_inv pt x t n : GInv pt x -> holds (thr (base x) t) n ->
   n <> 0 /\
   (forall k, Nat.iter k (nxt (base x)) (head (base x)) <> n) /\
   tail (base x) <> n /\
   (forall u, pc (thr (base x) u) = PLink -> prev (thr (base x) u) <> n /\ node (thr (base x) u) <> n) /\
   (forall u, u <> t -> ~ In n (own_list (thr (base x) u))).
 Proof.
-  intros G H. apply holds_own in H. destruct (g_own_nq x G t n H) as [Nz Nw].
-  pose proof (g_ord x G) as O.
+  intros G H. apply holds_own in H. destruct (g_own_nq pt x G t n H) as [Nz Nw].
+  pose proof (g_ord pt x G) as O.
   split; [exact Nz|]. split; [|split; [|split]].
-  - intros k E. destruct (reach_in_window x k G) as [Z|[i [Hi Ei]]]; [congruence|].
+  - intros k E. destruct (reach_in_window pt x k G) as [Z|[i [Hi Ei]]]; [congruence|].
     apply (Nw i Hi). congruence.
-  - rewrite (g_tail x G). apply Nw. lia.
-  - intros u Hu. assert (Lu := g_loc x G u). unfold local_ok in Lu. rewrite Hu in Lu.
+  - rewrite (g_tail pt x G). apply Nw. lia.
+  - intros u Hu. assert (Lu := g_loc pt x G u). unfold local_ok in Lu. rewrite Hu in Lu.
     destruct Lu as [i (A & B & C & D)]. rewrite B, C. split; apply Nw; lia.
-  - intros u Hu Hin. apply Hu. apply (g_own_dj x G u t n); auto.
+  - intros u Hu Hin. apply Hu. apply (g_own_dj pt x G u t n); auto.
 Qed.
 
 (* ------------------------------------------------------------------ *)
-(* per-producer order: the values exchanged by producer t so far, followed by
-   the values t has still to exchange, are t's program *)
+(* program order: the values stored to tail so far, followed by the values the
+   producer has still to push, are the producer's program *)
 Fixpoint pushvals (p : list op) : list nat :=
   match p with
   | [] => []
@@ -842,16 +873,13 @@ Fixpoint pushvals (p : list op) : list nat :=
 Definition pendvals (T : tst) : list nat :=
   (if pushing (pc T) then [arg T] else []) ++ pushvals (prog T).
 
-Definition tagged (t : nat) (l : list (nat * nat)) : list nat :=
-  map snd (filter (fun e => Nat.eqb (fst e) t) l).
+Definition PInv (pt : nat) (progs : list (list op)) (x : ist) : Prop :=
+  map snd (plog x) ++ pendvals (thr (base x) pt) = pushvals (nth pt progs []).
 
-Definition PInv (progs : list (list op)) (x : ist) : Prop :=
-  forall t, t <> 0 -> tagged t (plog x) ++ pendvals (thr (base x) t) = pushvals (nth t progs []).
-
-Lemma pend_next_op T : pushing (pc T) = false -> pushonly (prog T) -> pendvals (next_op T) = pendvals T.
+Lemma pend_next_op T : pushing (pc T) = false -> pendvals (next_op T) = pendvals T.
 Proof.
-  unfold pendvals, next_op. intros E P. rewrite E.
-  destruct (prog T) as [|[n v| |v] r]; cbn in *; try reflexivity; contradiction.
+  unfold pendvals, next_op. intros E. rewrite E.
+  destruct (prog T) as [|[n v|] r]; cbn in *; reflexivity.
 Qed.
 
 Lemma step_thr_other s u t : t <> u -> thr (fst (step s u)) t = thr s t.
@@ -863,41 +891,40 @@ Qed.
 
 Lemma lstep_plog x u :
   plog (lstep x u) = match pc (thr (base x) u) with
-                     | PXchg => plog x ++ [(u, arg (thr (base x) u))]
+                     | PStoreTail => plog x ++ [(u, arg (thr (base x) u))]
                      | _ => plog x
                      end.
 Proof. unfold lstep. destruct (pc (thr (base x) u)); reflexivity. Qed.
 
-Lemma tagged_snoc_same t l v : tagged t (l ++ [(t, v)]) = tagged t l ++ [v].
-Proof. unfold tagged. rewrite filter_app, map_app. cbn. rewrite Nat.eqb_refl. reflexivity. Qed.
-
-Lemma tagged_snoc_other t u l v : u <> t -> tagged t (l ++ [(u, v)]) = tagged t l.
+Lemma pinv_step pt progs x u : GInv pt x -> PInv pt progs x -> PInv pt progs (lstep x u).
 Proof.
-  intros Ne. unfold tagged. rewrite filter_app, map_app. cbn.
-  destruct (Nat.eqb_spec u t); [contradiction|]. cbn. apply app_nil_r.
-Qed.
-
-Lemma pinv_step progs x u : GInv x -> PInv progs x -> PInv progs (lstep x u).
-Proof.
-  intros G P t Ht. specialize (P t Ht). rewrite lstep_erase, lstep_plog.
-  destruct (Nat.eq_dec t u) as [<-|Ne].
-  - destruct (g_cons x G t Ht) as [Pc Po].
-    unfold step. remember (thr (base x) t) as T eqn:HT.
-    destruct (pc T) eqn:Hpc; try (destruct Pc; fail); cbn [fst thr set_thr]; rewrite ?upd_same.
-    + rewrite <- P. unfold pendvals. cbn. rewrite Hpc. reflexivity.
-    + rewrite <- P. unfold pendvals. cbn. rewrite Hpc. reflexivity.
-    + rewrite <- P. rewrite tagged_snoc_same. unfold pendvals. cbn. rewrite Hpc. cbn.
+  intros G P. unfold PInv in *. rewrite lstep_erase, lstep_plog.
+  destruct (Nat.eq_dec pt u) as [<-|Ne].
+  - unfold step. remember (thr (base x) pt) as T eqn:HT.
+    destruct (pc T) eqn:Hpc; cbn [fst thr set_thr]; rewrite ?upd_same; try (rewrite <- HT; exact P);
+      try (rewrite <- P; unfold pendvals; cbn; rewrite Hpc; reflexivity);
+      try (rewrite pend_next_op by (rewrite Hpc; reflexivity); exact P).
+    + rewrite <- P. rewrite map_app. unfold pendvals. cbn. rewrite Hpc. cbn.
       rewrite <- app_assoc. reflexivity.
-    + rewrite pend_next_op; auto. rewrite Hpc. reflexivity.
-    + rewrite <- HT. exact P.
+    + destruct (nxt (base x) (hd T)); cbn [fst thr set_thr]; rewrite upd_same.
+      * rewrite pend_next_op by (rewrite Hpc; reflexivity). exact P.
+      * rewrite <- P. unfold pendvals. cbn. rewrite Hpc. reflexivity.
   - rewrite step_thr_other by assumption.
-    destruct (pc (thr (base x) u)); auto. rewrite tagged_snoc_other; auto.
+    destruct (g_prod pt x G u ltac:(congruence)) as [C _].
+    destruct (pc (thr (base x) u)); auto. destruct C.
 Qed.
 
-Theorem ireach_pinv progs x : wf progs -> ireach progs x -> PInv progs x.
+Theorem ireach_pinv pt progs x : wf pt progs -> ireach progs x -> PInv pt progs x.
 Proof.
   intros W. induction 1 as [|x t R IH].
-  - intros t Ht. cbn. unfold idle_thread. rewrite pend_next_op; [reflexivity|reflexivity|].
-    cbn. apply (wf_cons progs W t Ht).
-  - apply pinv_step; auto. apply (ireach_inv progs); auto.
+  - unfold PInv. cbn. unfold idle_thread. rewrite pend_next_op; reflexivity.
+  - apply pinv_step; auto. apply (ireach_inv pt progs); auto.
+Qed.
+
+(* the values returned so far are a prefix of the producer's program *)
+Lemma program_prefix_of_inv pt progs x : GInv pt x -> PInv pt progs x ->
+  exists rest, pushvals (nth pt progs []) = qlog x ++ rest.
+Proof.
+  intros G P. destruct (prefix_of_inv pt x G) as [r E]. unfold PInv in P. rewrite E in P.
+  rewrite <- app_assoc in P. eexists. symmetry. exact P.
 Qed.
